@@ -25,8 +25,9 @@ DocU   == { [kind |-> "doc", fEncrypted |-> e, fObfuscated |-> o] : e \in BOOLEA
 OdfEntry == [name : OdfNames, ed : BOOLEAN]
 OdfU   == { [kind |-> "odf", enc |-> e, prefix |-> p, entries |-> s] :
               e \in {"utf8", "utf16"}, p \in {"manifest", "m"}, s \in NonEmptySeqs(OdfEntry, MaxEntries) }
-PdfU   == { [kind |-> "pdf", alg |-> a, userEmpty |-> u] : a \in PdfAlgs, u \in BOOLEAN }
-            \ { [kind |-> "pdf", alg |-> "none", userEmpty |-> FALSE] }     \* no password without /Encrypt
+PdfU   == { [kind |-> "pdf", alg |-> a, userEmpty |-> u, owner |-> o] :
+              a \in PdfAlgs \ {"none"}, u \in BOOLEAN, o \in PdfOwners }
+          \cup { [kind |-> "pdf", alg |-> "none", userEmpty |-> TRUE, owner |-> "same"] }   \* no /Encrypt: no passwords
 ZipU   == { [kind |-> "zip", members |-> m] : m \in NonEmptySeqs(ZipMembers, MaxMembers) }
 \* coder chains as 7-Zip writes them (+ the unknown 06F107xx id alone)
 CoderChains == { <<"COPY">>, <<"LZMA">>, <<"LZMA2">>, <<"BCJ", "LZMA">>, <<"AES">>, <<"AES", "LZMA2">>,
